@@ -440,7 +440,43 @@ def check_case(res, case, rng):
     return ok_all
 
 
+def api_stage(res, seed):
+    """every call site of the four kernels in NNDescent._init_search_graph hands the index's diversify_prob on: with probability 0
+    nothing may be removed, so before the degree bound bites the search-graph row of u is its list united with the reverse edges;
+    with probability 1 the retained set satisfies the occlusion rule (harness/c16.py predicts it exactly). dense / CSR x compressed."""
+    import scipy.sparse as sp
+    from pynndescent import NNDescent
+    nrng = np.random.default_rng([seed, 1515])
+    n, k, dim = 120, 5, 6
+    for sparse in (False, True):
+        for compressed in (False, True):
+            X = nrng.standard_normal((n, dim)).astype(np.float32)
+            if sparse:
+                X = sp.csr_matrix(X * (nrng.random((n, dim)) < 0.8))
+            cfg = {"sparse": sparse, "compressed": compressed, "n": n, "k": k, "diversify_prob": 0.0, "pruning_degree_multiplier": 4.0}
+            idx = NNDescent(X, metric="euclidean", n_neighbors=k, random_state=int(nrng.integers(10 ** 6)), diversify_prob=0.0,
+                            pruning_degree_multiplier=4.0, compressed=compressed)
+            I = idx._neighbor_graph[0].copy()
+            idx._init_search_graph()
+            G = idx._search_graph.tocsr(); vo = np.asarray(idx._vertex_order)
+            lists = [set(int(v) for v in I[u] if v >= 0) - {u} for u in range(n)]
+            m = int(round(4.0 * k))
+            missing = 0; worst = None
+            for a in range(n):
+                u = int(vo[a])
+                S = {int(vo[b]) for b, v in zip(G.indices[G.indptr[a]:G.indptr[a + 1]], G.data[G.indptr[a]:G.indptr[a + 1]]) if v != 0}
+                U = lists[u] | {w for w in range(n) if u in lists[w]}
+                if len(U) <= m and U - S:
+                    missing += len(U - S); worst = worst or (u, sorted(U - S)[:5])
+            res.case(("api-p0", sparse, compressed, seed), True, sample=cfg); res.count("api_prob0_indexes"); res.traces += 1
+            if missing:
+                res.violation("diversify:api:prob0:%s:%s" % ("csr" if sparse else "dense", "compressed" if compressed else "plain"),
+                              "diversify_prob=0.0 must remove nothing, but %d k-neighbour edges are missing from the search graph (e.g. point %d lost %r)"
+                              % (missing, worst[0], worst[1]), cfg)
+
+
 def run(res, tier, seed, search):
+    api_stage(res, seed)
     rng = random.Random(seed * 7919 + 15)
     n = 60 if tier == "quick" else 600
     if search:
